@@ -198,7 +198,7 @@ def judgeKeyRow (prev nw : Option Row) (ops : List Op) : Verdict :=
     let generic := judgeRow prev nw (.dl ⟨0, 0, 0, 0⟩)
     if generic == .ok then .ok else
     let (f, v) := simRow prev ops
-    if f == nw && v != .ok then v else generic
+    if f == nw then v else generic   -- explained replay: `ok` only if the row was deleted in between
 
 def judgeKeyCRow (prev nw : Option CRow) (ops : List Op) : Verdict :=
   match ops with
@@ -207,7 +207,7 @@ def judgeKeyCRow (prev nw : Option CRow) (ops : List Op) : Verdict :=
     let generic := judgeCRow prev nw (.dl ⟨0, 0, 0, 0⟩)
     if generic == .ok then .ok else
     let (f, v) := simCRow prev ops
-    if f == nw && v != .ok then v else generic
+    if f == nw then v else generic   -- explained replay: `ok` only if the row was deleted in between
 
 /-- judge one observed row transition and update the observed tables -/
 def judgeOne (d : DSt) (k : Key) (cmd : Bool) (ops : List Op) (implRow : String) : DSt × String :=
